@@ -69,7 +69,12 @@ class Part:
         shrink_budget: float = 20.0,
         setup: Optional[Callable] = None,
         teardown: Optional[Callable] = None,
+        collect: bool = False,
     ):
+        # collect: the cases run real processes and are not exactly repeatable; a violation is
+        # recorded with the case and the log that showed it, and the search goes on (no shrinking,
+        # no second execution by Hypothesis, which would report "flaky" instead of the violation)
+        self.collect = collect
         self.name = name
         self.prop = prop
         self.strategy = strategy
@@ -211,7 +216,14 @@ def run_strategy_part(ctx: Ctx, part: Part, part_index: int, budget: int):
     for round_ in range(3):
 
         def test(case):
-            _run_prop(ctx, part, case)
+            if not part.collect:
+                return _run_prop(ctx, part, case)
+            try:
+                _run_prop(ctx, part, case)
+            except Violation as v:
+                if v.sig not in ctx.excluded_sigs:
+                    found.append(v)
+                    ctx.excluded_sigs.add(v.sig)
 
         remaining = budget if round_ == 0 else max(1, budget // 2)
         wrapped = hypothesis.seed(_hyp_seed(ctx, part_index, round_))(
@@ -256,6 +268,14 @@ def replay_files(prop_id: str) -> List[Path]:
 
 def worker_main(module, tier: str, seed: int, shard: int, nshards: int, out: Path):
     """Run one shard of a check; write a JSON result"""
+    try:
+        # a worker never outlives the process that started it (which may be killed by a time limit)
+        import ctypes
+        import signal
+
+        ctypes.CDLL("libc.so.6", use_errno=True).prctl(1, signal.SIGKILL)  # PR_SET_PDEATHSIG
+    except Exception:
+        pass
     ctx = Ctx(module.ID, tier, seed, shard, nshards)
     result = {"ok": True}
     t0 = time.time()
